@@ -593,7 +593,7 @@ def pathMultipleLoop (A : PArith F) (g : PathIn F) (interval : Int) (legacy : In
     let nc := nextColumn + interval
     let nc := if nc ≥ (g.total : Int) - rs then nc - g.total - rs + legacy else nc
     let nc := nc + rs
-    let pat2 ← if g.total > 2 then pat1.add (asU8 nc) (.span t t) else .ok pat1
+    let pat2 ← (if g.total > 2 then pat1.add (asU8 nc) (.span t t) else .ok pat1 : M Pat)
     let (c, s') := getRandomColumn A s rs g.total
     let t' ← i32add t g.seg
     pathMultipleLoop A g interval legacy k pat2 c t' s'
@@ -619,11 +619,11 @@ def pathNRandom (A : PArith F) (g : PathIn F) (ct : Nat) (startT : Int) (p2 p3 p
   let dbl (x : Nat) : Bool := sampleHas x (S_CLAP ||| S_FINISH)
   -- `&&` / `||` short-circuit: `sample_info_list_at` (which can panic) is only evaluated if needed
   let canTwo ←
-    if has ct LOW_PROBABILITY then .ok false
+    (if has ct LOW_PROBABILITY then .ok false
     else if dbl g.sample then .ok true
     else do
       let x ← sampleInfoAt g g.startT
-      .ok (dbl x)
+      .ok (dbl x) : M Bool)
   let p2 := if canTwo then A.pct 100 else p2
   let (n, s1) := noteCount A s p2 p3 p4 z z
   pathRandomHoldNotes A g startT n s1
@@ -663,8 +663,8 @@ def pathHoldNormalLoop (A : PArith F) (g : PathIn F) (holdColumn : Nat) (noteCou
   | 0, pat, _, _, s => .ok (pat, s)
   | k + 1, pat, nextColumn, t, s => do
     let (row, c, s') ←
-      if !(ignoreHead && t == g.startT) then pathRowLoop A g holdColumn t noteCount Pat.empty nextColumn s
-      else .ok (Pat.empty, nextColumn, s)
+      (if !(ignoreHead && t == g.startT) then pathRowLoop A g holdColumn t noteCount Pat.empty nextColumn s
+      else .ok (Pat.empty, nextColumn, s) : M (Pat × Nat × Osu))
     let t' ← i32add t g.seg
     pathHoldNormalLoop A g holdColumn noteCount ignoreHead k (pat.append row) c t' s'
 
@@ -689,42 +689,47 @@ def pathHoldNormal (A : PArith F) (g : PathIn F) (ct : Nat) (startT : Int) (s : 
   let iters ← inclusiveIters g.span 100000
   pathHoldNormalLoop A g holdColumn n.toNat ignoreHead iters pat c0 startT s3
 
+/-- `generate_()` for `span_count > 1` -/
+def pathCoreMulti (A : PArith F) (g : PathIn F) (s : Osu) : M (Pat × Osu) :=
+  if g.seg ≤ 90 then pathRandomHoldNotes A g g.startT 1 s
+  else if g.seg ≤ 120 then do
+    let n ← i32add g.span 1
+    pathRandomNotes A g (g.ct ||| 2 ^ FORCE_NOT_STACK) g.startT n s
+  else if g.seg ≤ 160 then pathStair A g g.startT s
+  else if g.seg ≤ 200 && A.gt g.cd (A.pct 300) then pathMultiple A g g.startT s
+  else do
+    -- `self.end_time - self.start_time >= 4000`
+    let d ← i32sub g.endT g.startT
+    if d ≥ 4000 then pathNRandom A g g.ct g.startT (A.pct 23) (A.pct 0) (A.pct 0) s
+    else if g.seg > 400 && decide (g.span < (g.total : Int) - 1 - randomStart g.total) then
+      pathTiled A g g.ct g.startT s
+    else pathHoldNormal A g g.ct g.startT s
+
+/-- `generate_()` for `span_count <= 1` -/
+def pathCoreSingle (A : PArith F) (g : PathIn F) (s : Osu) : M (Pat × Osu) :=
+  if g.seg ≤ 110 then
+    pathRandomNotes A g
+      (if g.prev.count < g.total then g.ct ||| 2 ^ FORCE_NOT_STACK else g.ct &&& (65535 - 2 ^ FORCE_NOT_STACK))
+      g.startT (1 + (if g.seg ≥ 80 then 1 else 0)) s
+  else if A.gt g.cd (A.pct 650) then
+    if has g.ct LOW_PROBABILITY then pathNRandom A g g.ct g.startT (A.pct 78) (A.pct 30) (A.pct 0) s
+    else pathNRandom A g g.ct g.startT (A.pct 85) (A.pct 36) (A.pct 3) s
+  else if A.gt g.cd (A.pct 400) then
+    if has g.ct LOW_PROBABILITY then pathNRandom A g g.ct g.startT (A.pct 43) (A.pct 8) (A.pct 0) s
+    else pathNRandom A g g.ct g.startT (A.pct 56) (A.pct 18) (A.pct 0) s
+  else if A.gt g.cd (A.pct 250) then
+    if has g.ct LOW_PROBABILITY then pathNRandom A g g.ct g.startT (A.pct 30) (A.pct 0) (A.pct 0) s
+    else pathNRandom A g g.ct g.startT (A.pct 37) (A.pct 8) (A.pct 0) s
+  else if has g.ct LOW_PROBABILITY then pathNRandom A g g.ct g.startT (A.pct 17) (A.pct 0) (A.pct 0) s
+  else pathNRandom A g g.ct g.startT (A.pct 27) (A.pct 0) (A.pct 0) s
+
 /-- `generate_()`: the dispatch on span count, segment duration and conversion difficulty -/
 def pathGenerateCore (A : PArith F) (g : PathIn F) (s : Osu) : M (Pat × Osu) :=
-  let low := has g.ct LOW_PROBABILITY
-  let rs := randomStart g.total
-  let z := A.pct 0
-  let fns : Nat := 2 ^ FORCE_NOT_STACK
   if g.total = 1 then do
     let p ← Pat.single 0 (.span g.startT g.endT)
     .ok (p, s)
-  else if g.span > 1 then
-    if g.seg ≤ 90 then pathRandomHoldNotes A g g.startT 1 s
-    else if g.seg ≤ 120 then do
-      let n ← i32add g.span 1
-      pathRandomNotes A g (g.ct ||| fns) g.startT n s
-    else if g.seg ≤ 160 then pathStair A g g.startT s
-    else if g.seg ≤ 200 && A.gt g.cd (A.pct 300) then pathMultiple A g g.startT s
-    else do
-      -- `self.end_time - self.start_time >= 4000`
-      let d ← i32sub g.endT g.startT
-      if d ≥ 4000 then pathNRandom A g g.ct g.startT (A.pct 23) z z s
-      else if g.seg > 400 && decide (g.span < (g.total : Int) - 1 - rs) then pathTiled A g g.ct g.startT s
-      else pathHoldNormal A g g.ct g.startT s
-  else if g.seg ≤ 110 then
-    let ct := if g.prev.count < g.total then g.ct ||| fns else g.ct &&& (65535 - fns)
-    pathRandomNotes A g ct g.startT (1 + (if g.seg ≥ 80 then 1 else 0)) s
-  else if A.gt g.cd (A.pct 650) then
-    if low then pathNRandom A g g.ct g.startT (A.pct 78) (A.pct 30) z s
-    else pathNRandom A g g.ct g.startT (A.pct 85) (A.pct 36) (A.pct 3) s
-  else if A.gt g.cd (A.pct 400) then
-    if low then pathNRandom A g g.ct g.startT (A.pct 43) (A.pct 8) z s
-    else pathNRandom A g g.ct g.startT (A.pct 56) (A.pct 18) z s
-  else if A.gt g.cd (A.pct 250) then
-    if low then pathNRandom A g g.ct g.startT (A.pct 30) z z s
-    else pathNRandom A g g.ct g.startT (A.pct 37) (A.pct 8) z s
-  else if low then pathNRandom A g g.ct g.startT (A.pct 17) z z s
-  else pathNRandom A g g.ct g.startT (A.pct 27) z z s
+  else if g.span > 1 then pathCoreMulti A g s
+  else pathCoreSingle A g s
 
 /-- end time of a generated object as `generate()` reads it: `obj.end_time().round_ties_even() as i32`
 (the times are `i32` values, exactly representable) -/
